@@ -5,7 +5,7 @@ from .c04 import SyncProp
 class C05(SyncProp):
     id = "C05"
     kinds = ("sem",)
-    sizes = {"quick": 1500, "thorough": 60000}
+    sizes = {"quick": 1500, "thorough": 20000}
     ready = True
     nontrivial_labels = ("sem-timeout-with-others-queued", "sem-release-hits-queue", "release-at-deadline")
     technique = ("property-based testing (Hypothesis): generated acquire/acquire_timeout/release programs run on the real kernel, "
